@@ -145,7 +145,7 @@ pub struct Tmpl {
 fn setup(addr: &str, dir: &Path) -> Option<Tmpl> {
     let mut i = Inst::over_http(dir, addr, vec![http::basic(USER, PASS)]);
     i.call("brc20_initialise", json!({"genesis_hash": hist::ZERO_HASH, "genesis_timestamp": 1, "genesis_height": 0}));
-    let bh = format!("0x{:064x}", 0xc12u64);
+    let bh = crate::hist::bh((0xc12u64) as u64);
     let r = i.call("brc20_deploy", json!({"from_pkscript": PK, "data": hist::hx(&asm::tool_init()), "timestamp": 2, "hash": bh, "tx_idx": 0, "inscription_id": "c12-setup-tool", "inscription_byte_len": 100000, "op_return_tx_id": hist::ZERO_HASH}));
     let tool = hist::created_address(&r)?;
     let tx_hash = hist::receipts_in(&r)[0]["transactionHash"].as_str()?.to_string();
@@ -155,7 +155,7 @@ fn setup(addr: &str, dir: &Path) -> Option<Tmpl> {
     i.call("brc20_commitToDatabase", json!([]));
     let s = Signer::new(41);
     let raw = s.sign(Some(rpc::chain_id_for("regtest")), 0, Some(hist::parse_addr(&tool)), &asm::tool_call(asm::OP_INC, &[asm::word_u64(2)], &[]));
-    Some(Tmpl { tool, tx_hash, block_hash: bh, fresh_hash: format!("0x{:064x}", 0xf00du64), raw_tx: format!("0x{}", raw), next_height: 4, n: 0 })
+    Some(Tmpl { tool, tx_hash, block_hash: bh, fresh_hash: crate::hist::bh((0xf00du64) as u64), raw_tx: format!("0x{}", raw), next_height: 4, n: 0 })
 }
 
 fn digest(addr: &str, dir: &Path) -> String {
@@ -212,7 +212,7 @@ fn sweep(ctx: &WorkerCtx, rep: &mut WorkerReport, auth: bool, methods: &[String]
         let authorised = *authorised_hdr || !auth;
         for m in methods {
             for form in forms {
-                st.fresh_hash = format!("0x{:064x}", 0xf00d_0000u64 + st.n + 1);
+                st.fresh_hash = crate::hist::bh((0xf00d_0000u64 + st.n + 1) as u64);
                 let Some(params) = template(m, &st) else {
                     rep.set_add("methods_without_template", m.clone());
                     continue;
@@ -372,7 +372,7 @@ fn classify(ctx: &WorkerCtx, rep: &mut WorkerReport, methods: &[String], deny: &
     }
     for m in methods {
         st.n += 1;
-        st.fresh_hash = format!("0x{:064x}", 0xf00d_0000u64 + st.n);
+        st.fresh_hash = crate::hist::bh((0xf00d_0000u64 + st.n) as u64);
         let Some(params) = template(m, &st) else {
             rep.inconclusive(format!("no parameter template for registered method {} (unclassified)", m));
             continue;
@@ -413,7 +413,7 @@ fn classify(ctx: &WorkerCtx, rep: &mut WorkerReport, methods: &[String], deny: &
 fn twin_after_sweep(ctx: &WorkerCtx, rep: &mut WorkerReport, methods: &[String], deny: &BTreeSet<String>, btc: &str) {
     let script = |addr: &str, dir: &Path| -> Vec<Value> {
         let mut i = Inst::over_http(dir, addr, vec![http::basic(USER, PASS)]);
-        let h = format!("0x{:064x}", 0x5c21u64);
+        let h = crate::hist::bh((0x5c21u64) as u64);
         let mut out = Vec::new();
         out.push(i.call("brc20_deploy", json!({"from_pkscript": PK, "data": hist::hx(&asm::tool_init_with_ctor()), "timestamp": 90, "hash": h, "tx_idx": 0, "inscription_id": "c12-script-1", "inscription_byte_len": 100000, "op_return_tx_id": hist::ZERO_HASH})).to_json());
         out.push(i.call("brc20_withdraw", json!({"from_pkscript": PK, "ticker": "ordi", "amount": "0x5", "timestamp": 90, "hash": h, "tx_idx": 1, "inscription_id": "c12-script-2"})).to_json());
@@ -444,7 +444,7 @@ fn twin_after_sweep(ctx: &WorkerCtx, rep: &mut WorkerReport, methods: &[String],
                     continue;
                 }
                 st.n += 1;
-                st.fresh_hash = format!("0x{:064x}", 0xf00d_0000u64 + st.n);
+                st.fresh_hash = crate::hist::bh((0xf00d_0000u64 + st.n) as u64);
                 if let Some(p) = template(m, &st) {
                     for body in [json!({"jsonrpc": "2.0", "id": 7, "method": m, "params": p}), json!({"jsonrpc": "2.0", "method": m, "params": p}), json!([{"jsonrpc": "2.0", "method": m, "params": p}, {"jsonrpc": "2.0", "id": 1, "method": "eth_chainId", "params": []}])] {
                         let _ = http::post(&srv.addr, &[], &body.to_string(), Duration::from_secs(30));
